@@ -231,6 +231,10 @@ def check_c14(pid, tier, t0, replay_key):
     obl += o
     samples += s5
     st.update(st5)
+    f, o, st6 = e5.rule_p6(P, tables)
+    findings += f
+    obl += o
+    st.update(st6)
     common.check_floors(pid, st, tables)
     if tier == "thorough":
         st["selftest"] = run_selftest(pid)
